@@ -114,7 +114,7 @@ func (c *c19Run) op(f []string) string {
 		}
 		c.clients = append(c.clients, &c19Client{s: s})
 		if !c.lclosed {
-			c19WaitFor(time.Second, func() bool { return c.listed() > n0 })
+			c19WaitFor(5*time.Second, func() bool { return c.listed() > n0 })
 		} else {
 			settle()
 		}
@@ -154,7 +154,7 @@ func (c *c19Run) op(f []string) string {
 		}
 		c.clients = append(c.clients, &c19Client{s: s})
 		if !c.lclosed {
-			c19WaitFor(time.Second, func() bool { return c.listed() > n0 })
+			c19WaitFor(5*time.Second, func() bool { return c.listed() > n0 })
 		} else {
 			time.Sleep(150 * time.Millisecond)
 		}
@@ -180,7 +180,7 @@ func (c *c19Run) op(f []string) string {
 			return "done " + c.snap()
 		}
 		if !c.lclosed {
-			c19WaitFor(300*time.Millisecond, func() bool { return len(c.ln.backlog) > n0 })
+			c19WaitFor(3*time.Second, func() bool { return len(c.ln.backlog) > n0 })
 		} else {
 			settle()
 		}
@@ -340,7 +340,7 @@ func (c *c19Run) op(f []string) string {
 		c.clients[k].s.Close()
 		if !was && !c.lclosed {
 			// the server notices through the connection; an idle event loop runs posted work once per second
-			c19WaitFor(4*time.Second, func() bool { return c.listed() < n0 })
+			c19WaitFor(8*time.Second, func() bool { return c.listed() < n0 })
 		} else {
 			settle()
 		}
@@ -384,8 +384,8 @@ func c19Exec(ops []string) vResult {
 		if cl.s == nil {
 			continue
 		}
-		if !c19WaitFor(5*time.Second, func() bool { return cl.s.IsClosed() }) {
-			c.setFail("session-not-ended-after-listener-close", fmt.Sprintf("the listener is closed and every conn Accept returned is closed, yet session %d is still open 5 s later (streams opened on it: %d, of which %d were handed out by Accept)", k, len(cl.streams), func() int {
+		if !c19WaitFor(10*time.Second, func() bool { return cl.s.IsClosed() }) {
+			c.setFail("session-not-ended-after-listener-close", fmt.Sprintf("the listener is closed and every conn Accept returned is closed, yet session %d is still open 10 s later (streams opened on it: %d, of which %d were handed out by Accept)", k, len(cl.streams), func() int {
 				n := 0
 				for _, cc := range c.conns {
 					if cc.k == k {
